@@ -71,7 +71,7 @@ theorem handle_entry_limit_eviction_eq (A : F64 F) (c : AsyncCache K V F) (now r
     handle_entry_limit_eviction A ⟨fun _ => 0, now⟩ r c q =
       ({ c with cache := (limitStep (cfgOf c) (srcTlruAsync A c.frequency_weight) now r c.cache q).1 },
        (limitStep (cfgOf c) (srcTlruAsync A c.frequency_weight) now r c.cache q).2) := by
-  obtain ⟨cache, order, limit, mm, policy, ttl, fw⟩ := c
+  obtain ⟨cache, order, limit, mm, policy, ttl, fw, st⟩ := c
   unfold handle_entry_limit_eviction limitStep
   dsimp only at ok ⊢
   cases limit with
@@ -81,17 +81,17 @@ theorem handle_entry_limit_eviction_eq (A : F64 F) (c : AsyncCache K V F) (now r
     · simp only [cfgOf, overLimit, hfull, decide_true, if_true]
       cases policy with
       | lfu =>
-        have hv := find_min_frequency_key_eq (AsyncCache.mk cache order (some n) mm Policy.lfu ttl fw) (srcTlruAsync A fw) now rfl q (fun k e h => ok.hitsBelowMax (k, e) (lookup_mem' k e _ h))
+        have hv := find_min_frequency_key_eq (AsyncCache.mk cache order (some n) mm Policy.lfu ttl fw st) (srcTlruAsync A fw) now rfl q (fun k e h => ok.hitsBelowMax (k, e) (lookup_mem' k e _ h))
         simp only [cfgOf] at hv
         simp [evictLimit, evictScored, hv]
         cases victim _ _ now cache q <;> simp [removeBoth, mapRemove, retain]
       | arc =>
-        have hv := find_arc_eviction_key_eq A (AsyncCache.mk cache order (some n) mm Policy.arc ttl fw) (srcTlruAsync A fw) now rfl q ok.arcBelowMax ok.arcOrder
+        have hv := find_arc_eviction_key_eq A (AsyncCache.mk cache order (some n) mm Policy.arc ttl fw st) (srcTlruAsync A fw) now rfl q ok.arcBelowMax ok.arcOrder
         simp only [cfgOf] at hv
         simp [evictLimit, evictScored, hv]
         cases victim _ _ now cache q <;> simp [removeBoth, mapRemove, retain]
       | tlru =>
-        have hv := find_tlru_eviction_key_eq A (AsyncCache.mk cache order (some n) mm Policy.tlru ttl fw) now rfl q ok.tlruBelowMax
+        have hv := find_tlru_eviction_key_eq A (AsyncCache.mk cache order (some n) mm Policy.tlru ttl fw st) now rfl q ok.tlruBelowMax
         simp only [cfgOf] at hv
         simp [evictLimit, evictScored, hv]
         cases victim _ _ now cache q <;> simp [removeBoth, mapRemove, retain]
@@ -132,10 +132,10 @@ theorem insert_eq (A : F64 F) (c : AsyncCache K V F) (now r hs ms : Nat) (k : K)
       { c with
         cache := (Cachelito.insert (cfgOf c) (srcTlruAsync A c.frequency_weight) r ⟨c.cache, c.order, now, hs, ms⟩ k v).store,
         order := (Cachelito.insert (cfgOf c) (srcTlruAsync A c.frequency_weight) r ⟨c.cache, c.order, now, hs, ms⟩ k v).queue } := by
-  obtain ⟨cache, order, limit, mm, policy, ttl, fw⟩ := c
+  obtain ⟨cache, order, limit, mm, policy, ttl, fw, st⟩ := c
   unfold Async.insert
   simp only [is_already_key_inserted_eq]
-  have ok' : ScoresOK A (AsyncCache.mk (eraseKey k cache) order limit mm policy ttl fw) :=
+  have ok' : ScoresOK A (AsyncCache.mk (eraseKey k cache) order limit mm policy ttl fw st) :=
     ⟨fun p hp => ok.hitsBelowMax p (by simp [eraseKey] at hp; exact hp.1), ok.arcBelowMax, ok.arcOrder, ok.tlruBelowMax⟩
   simp only [Bool.false_eq_true, if_false]
   rw [handle_entry_limit_eviction_eq A _ now r _ ok']
